@@ -240,11 +240,13 @@ func (rd *HandlingDataManager) initializeStreams() (err error) {
 	if err != nil {
 		return fmt.Errorf("failed to create stream: %w", err)
 	}
-	rd.stream = stream
-	rd.stream.WithHub(rd.lunarHub)
-	if err = rd.stream.Initialize(); err != nil {
+	stream.WithHub(rd.lunarHub)
+	if err = stream.Initialize(); err != nil {
 		return fmt.Errorf("failed to initialize streams: %w", err)
 	}
+	// Publish the new engine only once it is fully built: transactions keep
+	// using the previous one until then, and keep it if initialization fails.
+	rd.stream = stream
 
 	rd.stream.InitializeHubCommunication()
 	if err = config.WaitForProxyHealthcheck(); err != nil {
@@ -353,6 +355,12 @@ func (rd *HandlingDataManager) handleApplyFlows() func(http.ResponseWriter, *htt
 		}
 
 		fileSystemOperations := config.NewFileSystemOperation()
+		// The directories are wiped before the payload is written: keep a backup so
+		// that a rejected or failing payload leaves the previous configuration in place.
+		if err := fileSystemOperations.Backup(); err != nil {
+			handleError(writer, "Failed to backup", http.StatusInternalServerError, err)
+			return
+		}
 
 		if err := incomingData.ParsePayload(); err != nil {
 			handleError(writer, "Failed to parse incoming data", http.StatusBadRequest, err)
@@ -361,17 +369,29 @@ func (rd *HandlingDataManager) handleApplyFlows() func(http.ResponseWriter, *htt
 
 		if err := incomingData.CleanUpGatewayDirectories(fileSystemOperations); err != nil {
 			handleError(writer, "Failed to clean up", http.StatusInternalServerError, err)
+			if err = fileSystemOperations.Restore(); err != nil {
+				log.Error().Err(err).Msg("Failed to restore file system operations")
+			}
 			return
 		}
 
 		if err := incomingData.SavePayloadContentToDisk(fileSystemOperations); err != nil {
 			handleError(writer, "Failed to save payload content to disk",
 				http.StatusInternalServerError, err)
+			if err = fileSystemOperations.Restore(); err != nil {
+				log.Error().Err(err).Msg("Failed to restore file system operations")
+			}
 			return
 		}
 
 		if err := rd.reloadFlows(); err != nil {
 			handleError(writer, err.Error(), http.StatusUnprocessableEntity, err)
+			if err = fileSystemOperations.Restore(); err != nil {
+				log.Error().Err(err).Msg("Failed to restore file system operations")
+			}
+			if err = rd.reloadFlows(); err != nil {
+				log.Error().Err(err).Msg("Failed to reload flows after restore")
+			}
 			return
 		}
 
